@@ -53,6 +53,7 @@ def main(argv=None):
     rep = Report(pid, LEVELS.get(pid, 'other'), a.tier, seed)
     try:
         mod.describe(rep)
+        rep.bound(**getattr(mod, 'BOUNDS', {}).get(a.tier, {}))
         tasks = mod.tasks(a.tier, seed)
         if a.only:
             tasks = [t for t in tasks if a.only in str(t)]
